@@ -164,8 +164,9 @@ Qed.
 Print Assumptions source_mask_bytes.
 
 (* ---- the entry points: the verdict is `comparator = 0` on the two normal forms; the search parses, normalises and
-        compares EVERY member (the model's find_go; Props/C09.v find_is_filter) ---- *)
+        compares EVERY member (the model's find_go; Props/C09.v find_is_filter); both hand stix_version to the parser
+        by keyword (its second positional parameter is something else) ---- *)
 
-Theorem source_entry_points : src_equiv_test = CmpIsZero /\ src_find_loop = FindEveryMember.
-Proof. split; reflexivity. Qed.
+Theorem source_entry_points : src_equiv_test = CmpIsZero /\ src_find_loop = FindEveryMember /\ src_equiv_version = ByKeyword.
+Proof. repeat split. Qed.
 Print Assumptions source_entry_points.
